@@ -59,6 +59,17 @@ def disturb(probes):
 
 def run(data):
     if data.get("disturb"): disturb(data["probes"])
+    # definitions made in both kinds of process, AFTER the disturbance: a text that parsed through a prefix split (dam = deca-metre) is
+    # declared as the exact symbol of a new unit; from then on it means that unit, whether or not it was parsed before
+    for text, dim in data.get("late", []):
+        if data.get("disturb"):
+            for t in (text, text + "²", "5 " + text):
+                try: Unit.parse(t)
+                except Exception: pass
+                try: Quantity(1, t)
+                except Exception: pass
+        try: measured.Dimension._by_name[dim].unit("vf late " + text, text)
+        except Exception: pass
     out = []
     for p in data["probes"]:
         try:
